@@ -7,7 +7,7 @@ func checkC04(c *Ctx, r *Report) {
 	r.Explanation = "Over the functions reachable (VTA call graph) from DecodeFile/DecodeFileSR/DecodeBox*/every registered decoder/every Box and composite Info, Encode, EncodeSW, Size: " +
 		"R1 no explicit panic/os.Exit/log.Fatal is reachable; G1 every make() whose length or capacity is an untrusted value of more than 16 bits (reader results, binary.BigEndian, BoxHeader.Size on the reader path) " +
 		"is dominated by one arm of a comparison on a value with the same taint root; G2 every cycle of every data-driven loop passes an error test of the sticky-error reader or a bounded counter test; " +
-		"G6 io.ReadAll is applied only to an io.LimitReader. Decides named necessary conditions of crash/hang/balloon freedom; does not decide absence of all index-out-of-range panics or nil dereferences, " +
+		"G6 io.ReadAll is applied only to an io.LimitReader; G3 a slice made in a function and indexed there by a loop counter is indexed below the length it was made with; G4 every constant index or constant slice bound on a slice is dominated by a test of its length, is on a slice long enough by construction, or rests on a named invariant of the decoded structure that is itself checked (appended at least once, field always stored with >= n bytes, two slices filled together, Type() non-empty); G5 every integer division by a non-constant is dominated by a non-zero test of the divisor or rests on a checked invariant; G-SIZE DecodeBoxSR compares the unsigned 64-bit box size itself with the remaining bytes before any decoder runs. Decides named necessary conditions of crash/hang/balloon freedom; does not decide index expressions with a computed index (other than G3 loop counters), nil dereferences or type assertions, " +
 		"nor that a comparison's arithmetic is right."
 	r.Assume("taint is flow-insensitive on struct fields and does not flow through slice elements; a guard is any dominating comparison sharing a taint root (its direction and arithmetic are not checked)")
 	r.Assume("call graph = VTA over CHA; interface calls on readers are resolved by type name of package bits")
@@ -16,7 +16,20 @@ func checkC04(c *Ctx, r *Report) {
 	ruleR1(c, r, entries, "R1")
 	ruleG1(c, r, scope, "G1")
 	ruleG2(c, r, scope, "G2")
+	ruleG3(c, r, scope, 12)
+	ruleG4(c, r, scope, map[string]func(*Ctx, *Report, string) bool{
+		"mp4.Dec3Box.Info:(Dec3Box).EC3Subs[0]":                          invAppendedAtLeastOnce("mp4", "Dec3Box", "EC3Subs", 1),
+		"mp4.Dec3Box.ChannelInfo:(Dec3Box).EC3Subs[0]":                   invAppendedAtLeastOnce("mp4", "Dec3Box", "EC3Subs", 1),
+		"mp4.FtypBox.MajorBrand:(FtypBox).data[:4]":                      invFieldLenAtLeast("FtypBox", "data", 8),
+		"mp4.FtypBox.MinorVersion:(FtypBox).data[4:8]":                   invFieldLenAtLeast("FtypBox", "data", 8),
+		"mp4.StypBox.MajorBrand:(StypBox).data[:4]":                      invFieldLenAtLeast("StypBox", "data", 8),
+		"mp4.StypBox.MinorVersion:(StypBox).data[4:8]":                   invFieldLenAtLeast("StypBox", "data", 8),
+		"mp4.TrafBox.ParseReadSenc:(SbgpBox).GroupDescriptionIndices[0]": invSameLength("SbgpBox", "SampleCounts", "GroupDescriptionIndices", 1),
+		"mp4.fixStartingCopyrightChar:([]byte)[0]":                       invTypeNonEmpty,
+	})
+	ruleG5(c, r, scope, map[string]func(*Ctx, *Report, string) bool{"mp4.SencBox.ParseReadBox:/ (SencBox).SampleCount": invSencSampleCount})
 	ruleG6(c, r)
+	ruleBoxSizeGuard(c, r)
 	r.Floor("G1", 15)
 	r.Floor("G2", 5)
 }
